@@ -8,6 +8,8 @@ CONSTANTS MaxPre = 1 MaxN = 5
   Places = {"alone", "middle", "afterstop"}
   StopFlag = "per_branch"
   CopyMode = "per_branch"
+  AdapterHides = TRUE
+  VarCopy = "per_value"
   Bufs <- BufQuick
 INVARIANT DriversAgree
 INVARIANT FillReaches
